@@ -540,11 +540,23 @@ def gen_hdr(rng, cases):
     elif nc > 4:
         nc = 3; hv = hv[:3]
     arith, opt = (1, rng.below(2)) if rng.chance(1, 3) else (0, rng.below(2))
+    ri = rng.choice([0, 0, 4])
     if fam.startswith("lossless"):
-        arith = 0
+        arith, ri = 0, 0          # (jclossls.c requires restart_interval to be a multiple of MCUs_per_row: not modelled)
     line = setup_line(rng.choice([8, 17, 40]), rng.choice([8, 9, 33]), nc, nc, prec, lossless, 0, arith, opt, 0,
-                      rng.choice([0, 0, 4]), rng.choice([0, 0, 1]), hv, script)
+                      ri, rng.choice([0, 0, 1]), hv, script)
     cases.append(("hdr" + line[5:], "hdr-" + fam.split("-")[0], {"nscans": len(script) if script else 1}))
+
+
+def tn_expect(path, which, idx, arith, opt):
+    """jpeg_set_defaults: quant tables 0,1; Huffman tables 0,1 (DC and AC); arithmetic tables 0..15"""
+    if which == 0:
+        return "ok" if idx in (0, 1) else "NoQuantTable"
+    if arith:
+        return "ok" if 0 <= idx <= 15 else "err"
+    if opt:
+        return "ok" if 0 <= idx <= 3 else "NoHuffTable"
+    return "ok" if idx in (0, 1) else "NoHuffTable"
 
 
 def tn_cases(cases):
@@ -553,7 +565,9 @@ def tn_cases(cases):
         for which in (0, 1, 2):
             for idx in (-1, 0, 1, 2, 3, 4, 5, 15, 16, 40):
                 for arith, opt in ((0, 0), (0, 1), (1, 0)):
-                    cases.append(("tn %d %d %d %d %d" % (path, which, idx, arith, opt), "tn", None))
+                    cases.append(("tn %d %d %d %d %d" % (path, which, idx, arith, opt), "tn",
+                                  {"tag": "tblno-%d-%d-%d-%d-%d" % (path, which, idx, arith, opt), "nscans": None,
+                                   "expect_tn": tn_expect(path, which, idx, arith, opt)}))
 
 
 def gen_rst(rng, cases):
@@ -817,6 +831,14 @@ def run_cases(ctx, cases, exes, drv, flavours):
         bad = oracle_verdict(kind, meta, impl)
         if bad:
             ctx.violation("accepted parameters give bad output: %s" % bad, rep, signature=sig_of(tag, kind, bad))
+        etn = meta.get("expect_tn") if isinstance(meta, dict) else None
+        if etn:
+            for fl in flavours:
+                mp = outs[fl][i].split(" # ")[0]
+                got = "ok" if mp.startswith("ok") else ("err" if etn == "err" and mp.startswith("err ") else mp.replace("err ", ""))
+                if not mp.startswith("<") and got != etn:
+                    ctx.violation("table number case %s (%s build): expected %s, got %s" % (line, fl, etn, mp[:60]),
+                                  dict(rep, flavour=fl), signature="tblno:%s" % line.replace(" ", "-"))
         expect = meta.get("expect") if isinstance(meta, dict) else None
         for fl in flavours:
             mp = outs[fl][i].split(" # ")[0]
